@@ -12,7 +12,7 @@ from typing import Any, List
 
 from vf.engine import Assume, Ctx
 from vf.oracle.deser import AnyOf, Opts, accepted_kinds, jkind
-from vf.specs import F, Program, Sp, is_required, named
+from vf.specs import F, Program, Sp, is_required, named, static_alias
 
 KINDS = ["null", "bool", "int", "float", "str", "list", "dict"]
 # wrong kinds tried below the top level unless Bounds.rich (stated bound)
@@ -32,6 +32,7 @@ class Bounds:
     str_pool: bool = False  # str leaves from a finite pool (int(str) / dict lookups realise)
     distinct_sets: bool = False  # no duplicate items at set-typed positions (C06 / C18 domain)
     td_extra: bool = False  # TypedDict values may carry an undeclared key (C04)
+    alias_confusion: bool = False  # a field may come under a name other than its external one (C11)
 
     def as_dict(self):
         return dict(self.__dict__)
@@ -323,7 +324,7 @@ class Gen:
                     out["zz"] = self.json(m.a[1], depth - 1)
                 continue
             required = is_required(s, f)
-            a = ext(f.ext)
+            a = ext(static_alias(s, f))
             if required and self.budget <= 0:
                 present = True
             elif depth <= 0 and not required:
@@ -336,7 +337,17 @@ class Gen:
                 sp = f.sp
                 if f.none_as_undefined and sp.k == "opt":
                     sp = sp.a[0]
-                out[a] = self.json(sp, depth - 1)
+                key = a
+                if self.b.alias_confusion and self.budget > 0:
+                    sa = static_alias(s, f)
+                    wrong = []
+                    for w in (f.name, f.alias or f.name, sa, ext(f.alias or f.name), ext(f.name)):
+                        if w != a and w not in wrong:
+                            wrong.append(w)
+                    key = c.pick([a] + wrong, "name")
+                    if key != a:
+                        self.budget -= 1
+                out[key] = self.json(sp, depth - 1)
         if top:
             has_addl = any(f.properties is True for f in fields)
             if not has_addl and (self.budget > 0 or self.opts.additional_properties):
